@@ -965,11 +965,14 @@ void mmd_export_token_latex(DString * out, const char * source, token * t, scrat
 			break;
 
 		case BRACKET_CITATION_LEFT:
-			print_const("[#");
+			// (an opener that found no partner is text: its reserved character is escaped like any other)
+			print_const("[");
+			mmd_print_char_latex(out, '#');
 			break;
 
 		case BRACKET_FOOTNOTE_LEFT:
-			print_const("[^");
+			print_const("[");
+			mmd_print_char_latex(out, '^');
 			break;
 
 		case BRACKET_GLOSSARY_LEFT:
